@@ -695,9 +695,33 @@ class PathEnumerator:
             if self._collector_loop(s, st):
                 return [(st, N)]
             it = ev.expr(s.iter, st.env)
+            if it[0] in ("tuple", "list") and 1 <= len(it[1]) <= 6 and not any(x[0] == "star" for x in it[1]):
+                # a loop over a short display written in place (a table of rows scanned in order) is unrolled exactly
+                out = []
+                live = [st]
+                for elt in it[1]:
+                    nxt = []
+                    for cur0 in live:
+                        ev.bind_target(s.target, elt, cur0.env, cur0.events)
+                        for cur, status in self._block(s.body, cur0):
+                            if status[0] in ("normal", "continue"):
+                                nxt.append(cur)
+                            elif status[0] == "break":
+                                out.append((cur, N))
+                            else:
+                                out.append((cur, status))
+                    live = nxt
+                for cur in live:
+                    if s.orelse:
+                        out.extend(self._block(s.orelse, cur))
+                    else:
+                        out.append((cur, N))
+                return out
             skip = st.fork()
             skip.events.append(("loop", it, 0))
             out = list(self._block(s.orelse, skip)) if s.orelse else [(skip, N)]
+            if it[0] in ("tuple", "list") and any(x[0] != "star" for x in it[1]):
+                out = []  # a display with a plain element is never empty: the body runs at least once
             st.events.append(("loop", it, 1))
             ev.bind_target(s.target, T.elem(it), st.env, st.events)
             for cur, status in self._block(s.body, st):
@@ -976,7 +1000,17 @@ def splice_helpers(prog: Program, paths: list[Path], _depth: int = 0) -> list[Pa
             r = substitute(q.exit[1], sigma)
 
             def repl(tm, x=x, r=r):
-                return T.rewrite(tm, lambda y: r if y == x else None)
+                tm2 = T.rewrite(tm, lambda y: r if y == x else None)
+                if tm2 is not tm and r[0] in ("tuple", "list"):
+                    # `a, b = _helper(x)`: the components of the returned display
+                    def fold(y, r=r):
+                        if y[0] == "unpack" and y[1] == r:
+                            z = T.mk_unpack(y[1], y[2], y[3])
+                            return z if z != y else None
+                        return None
+
+                    tm2 = T.rewrite(tm2, fold)
+                return tm2
 
             pev = [tuple(repl(y) if is_term(y) else y for y in e) for e in p.events]
             exit_ = p.exit if len(p.exit) == 1 else (p.exit[0], repl(p.exit[1]))
